@@ -8,7 +8,7 @@
    "any content with a file's recorded hashes and length has that file's slice checksum list" - which is an
    explicit hypothesis of the theorem; for PAR1 it is proved without such a premise (Proofs/Par1Clean.v). *)
 From Gopar Require Import Model.Base Model.CRC Model.GoPath Model.FS Model.Par2 Model.Par1 Model.History
-     Proofs.Par2Facts Proofs.Par1Facts Proofs.HistoryFacts Proofs.Par2Clean Proofs.Par2Converge Proofs.Par1Clean.
+     Proofs.Par2Facts Proofs.Par1Facts Proofs.HistoryFacts Proofs.Par2Clean Proofs.Par2Converge Proofs.Par1Clean Proofs.Par2Converge2.
 Open Scope N_scope.
 
 (* Verify never changes the state; a history of Verifies is the identity *)
@@ -62,14 +62,20 @@ Theorem C14_success_then_clean_and_idle : forall md5 ix dbl fs rp st' ds st1,
   load_all md5 ix (io_init fs []) = (Ok ds, st1) ->
   NoDup (map (fun info => file_path ix (di_name info)) (d_rec (ds_dec ds))) ->
   NoDup (map di_id (d_rec (ds_dec ds))) ->
-  (forall info data, In info (d_rec (ds_dec ds)) -> recorded md5 info data ->
-       wf_bytes data /\ di_pairs info = pairs_of md5 (N.to_nat (d_slice (ds_dec ds))) data) ->
+  (* self-consistency of the archive, for BYTE-VALUED data: content with a file's recorded hashes and length has that
+     file's slice checksum list (an earlier version demanded wf_bytes as a conclusion for all data, which no hash
+     satisfies - found by an audit; Converge2Example instantiates every premise of this one) *)
+  (forall info data, In info (d_rec (ds_dec ds)) -> wf_bytes data -> recorded md5 info data ->
+       di_pairs info = pairs_of md5 (N.to_nat (d_slice (ds_dec ds))) data) ->
+  (* what the protected paths hold before the repair is made of byte values *)
+  (forall info dat, In info (d_rec (ds_dec ds)) ->
+       fs_lookup fs (file_path ix (di_name info)) = Some dat -> wf_bytes dat) ->
   (forall info, In info (d_rec (ds_dec ds)) ->
        file_path ix (di_name info) <> ix /\ vol_pattern (strip_ext ix) (file_path ix (di_name info)) = false) ->
   exists c st2, par2_verify md5 ix (io_init (io_fs st') []) = (Ok c, st2) /\ repair_needed c = false /\
     forall dbl2 r2 rp2 st3, par2_repair md5 ix dbl2 (io_init (io_fs st') []) = ((r2, rp2), st3) ->
       rp2 = [] /\ io_fs st3 = io_fs st'.
-Proof. exact repair_ok_then_clean_and_idle. Qed.
+Proof. exact repair_ok_then_clean_and_idle2. Qed.
 Print Assumptions C14_success_then_clean_and_idle.
 
 (* a Repair on a set that verifies clean rewrites nothing, whatever it returns *)
